@@ -195,6 +195,14 @@ fn run<const N: usize>(job: &Value) {
                     Err(e) => json!({"ok": false, "error": format!("{e:#}"), "right_graph_after": hs}),
                 }
             }
+            "deploy" => {
+                let txt = String::from_utf8(bytes_from(&c["text"])).expect("script text is not UTF-8");
+                let mut s = sodg::Script::from_str(&txt);
+                match s.deploy_to(tgt) {
+                    Ok(n) => json!({"ok": true, "count": n}),
+                    Err(e) => json!({"ok": false, "error": format!("{e:#}")}),
+                }
+            }
             "clone" => {
                 other = Some(tgt.clone());
                 json!({"clone": snap_to(&other.as_ref().unwrap().verif_snapshot())})
